@@ -100,12 +100,16 @@ ASSUME \A m \in MethodNames : \A v \in Versions : \A i \in 1..Len(TTypes(m, v)) 
 (* Errors: what the backend returns -> the errno the caller gets *)
 
 Errnos == {"ENOENT", "EEXIST", "ENOTEMPTY", "EPERM", "EACCES", "EINVAL", "ENOSPC", "EIO", "ENODATA", "EAGAIN", "ERANGE"}
-Shapes == {"linux", "syscall", "wrap1", "wrap3", "patherror", "join", "os.ErrNotExist", "os.ErrExist", "os.ErrPermission",
-           "os.ErrInvalid", "opaque", "wrapped-opaque"}
+Shapes == {"linux", "syscall", "wrap1", "wrap3", "patherror", "join", "join-syscall", "join-patherror", "multiw", "multiw-second",
+           "syscallerror", "os.ErrNotExist", "os.ErrExist", "os.ErrPermission", "os.ErrInvalid", "opaque", "wrapped-opaque"}
 \* linux: linux.Errno(e); syscall: syscall.Errno(e); wrapN: fmt.Errorf("%w") N times around linux.Errno(e);
-\* patherror: &os.PathError{Err: syscall.Errno(e)}; join: errors.Join(errors.New("x"), linux.Errno(e))
+\* patherror: &os.PathError{Err: syscall.Errno(e)}; join: errors.Join(errors.New("x"), linux.Errno(e));
+\* join-syscall / join-patherror: a syscall.Errno (inside an *os.PathError inside %w) under errors.Join - the shape in
+\* which fidRef.DecRef hands a backend's Close error to the reply; multiw / multiw-second: fmt.Errorf with two %w, the
+\* errno under the first (inside an *os.LinkError) or the second; syscallerror: os.NewSyscallError
 ExpectedErrno(shape, e) ==
-  CASE shape \in {"linux", "syscall", "wrap1", "wrap3", "patherror", "join"} -> e
+  CASE shape \in {"linux", "syscall", "wrap1", "wrap3", "patherror", "join", "join-syscall", "join-patherror", "multiw",
+                  "multiw-second", "syscallerror"} -> e
     [] shape = "os.ErrNotExist" -> "ENOENT" [] shape = "os.ErrExist" -> "EEXIST"
     [] shape = "os.ErrPermission" -> "EACCES" [] shape = "os.ErrInvalid" -> "EINVAL"
     [] shape \in {"opaque", "wrapped-opaque"} -> "EIO"
